@@ -946,3 +946,35 @@ def perms_family(run, replay=None):
     with open(os.path.join(ROOT, 'evidence', 'C11.json'), 'w') as f:
         json.dump(ev2, f, indent=1)
     return max(rc1, rc2)
+
+
+# =====================================================================================================
+# Robustness (C13)
+# =====================================================================================================
+
+@register('C13')
+def robust_family(run, replay=None):
+    def gen(run):
+        run.model_check('Robust', 'Robust_MC.cfg', workers=2)
+        scen = run.generate('RobustGen', cfgtext='CONSTANTS Weak = {}\nINIT Init\nNEXT Next\nINVARIANT EmitInit\nCONSTRAINT OnlyInit\nCHECK_DEADLOCK FALSE\n')
+        scen = [json.loads(x) for x in sorted(set(json.dumps(s) for s in scen))]
+        attacks = []
+        for g in ["enc_length_checked", "aead_failure_answered", "values_comparable"]:
+            a = run.generate('RobustGen', cfgtext='CONSTANTS Weak = %s\nINIT Init\nNEXT Next\nINVARIANT NoAttack\nCHECK_DEADLOCK FALSE\n' % tla_set([g]), expect_violation=True)
+            if not a:
+                raise ToolTrouble('no attack scenario for guard %s' % g)
+            attacks.append((g, a[0]))
+        return [('scenario', scen)] + [('attack:' + g, [a]) for g, a in attacks], dict(scenarios=len(scen), exhaustive_over_scenarios=True)
+
+    def extra(lines, behs):
+        return dict(malformed_messages=len(lines), answered=sum(1 for x in lines if x.get('answered')), dropped=sum(1 for x in lines if x.get('dropped')),
+                    same_connection_handshakes_ok=sum(1 for x in lines if x.get('sameOK')), new_connection_handshakes_ok=sum(1 for x in lines if x.get('newOK')),
+                    handler_panics=sum(x.get('panics', 0) for x in lines))
+    return generic_family(run, replay, hcv='robust', trace_mod='RobustTrace', gen=gen,
+                          rules={'NoPanic': 'C13', 'Answered': 'C13', 'Recovers': 'C13'}, level='model_checking',
+                          assumptions=['hc\'s real HTTP server (hap/http.NewServer plus /resource registered as ip_transport.go does) over loopback TCP; the arbitrary part of a message is its body and the protocol state, the HTTP framing is well-formed',
+                                       'panics are detected by the standard logger\'s "http: panic serving <addr>" line for the connection under test and by the dropped connection',
+                                       'inside each class the bytes are a few fixed shapes plus seeded random bytes: the "arbitrary bytes" quantifier is sampled (3 variants per scenario in quick, 30 in thorough)'],
+                          rule_text='every (endpoint, protocol state reached by a prefix of a correct exchange, class of malformed input) triple that is an initial state of Robust.tla, each concretised by several byte strings; after each message a correct handshake on the same connection (at most one rejected start) and on a new connection; distinct = scenario triple; non-trivial = the state is reached by a non-empty correct prefix or the connection is verified',
+                          nontrivial=lambda b: b['steps'][0].get('st') not in ('fresh', 'unverified'), extra_cov=extra,
+                          fpfun=lambda rule, b, line: '%s/%s,%s,%s' % (rule, line.get('ep'), line.get('st'), line.get('cls')))
